@@ -417,7 +417,17 @@ def status_tests(fn):
     return out
 
 
+class _SwitchRef:
+    """stands in for the comparison call of a status test that is a `match` / `matches!` on the status value"""
+    def __init__(self, fn, site, t):
+        self.fn, self.site, self.bb, self._t = fn, site, site.bb, t
+    def where(self):
+        return self.fn.where(self._t.get("l"))
+
+
 def status_sat(op, const, value):
+    if op == "in":
+        return value in const
     a = STATUS_ORDER.index(value)
     b = STATUS_ORDER.index(const)
     return {">=": a >= b, ">": a > b, "<=": a <= b, "<": a < b, "==": a == b, "!=": a != b}[op]
@@ -456,6 +466,65 @@ def status_gates_at(fn, site, fresh_only=True, subject=None):
         for edge, pol in ((s["true_edge"], True), (s["false_edge"], False)):
             if edge and fn.edge_dominates(edge, site):
                 out.append((s, pol))
+    # `match status { A | B => .., _ => .. }` / `matches!(status, A | B)`: a switch on the discriminant of a status value
+    for sw_site, t in fn.switches():
+        info = fn.switch_info(sw_site)
+        if info.get("kind") != "enum" or not str(info.get("disc_adt") or info.get("disc_ty") or "").endswith("ActorStatus"):
+            continue
+        subj = fn.origins(info["disc_place"])
+        test = {"op": "in", "subject": subj, "call": _SwitchRef(fn, sw_site, t)}
+        if subject is not None:
+            if not subject(test):
+                continue
+        elif fresh_only and not any(r["k"] == "call" and r["call"].is_("get_status") for r in subj):
+            continue
+        by_target = {}
+        for nm, tgt in info["edges"].items():
+            if nm in STATUS_ORDER:
+                by_target.setdefault(tgt, set()).add(nm)
+        for tgt, names in by_target.items():
+            if fn.edge_dominates((sw_site.bb, tgt), site):
+                out.append((dict(test, const=frozenset(names)), True))
+        # `matches!(status, A | B)` lowers to a bool flag assigned true/false on the arms, tested later (possibly negated)
+        for bsite, bt in fn.switches():
+            if bt["dty"] != "bool":
+                continue
+            p = op_place(bt["discr"])
+            if p is None:
+                continue
+            local, negated = p[0], False
+            for _ in range(3):
+                ds = [d for d in fn.defs().get(local, []) if d[1] == "assign"]
+                if len(ds) == 1 and ds[0][2]["rv"]["k"] == "un" and ds[0][2]["rv"]["op"] == "Not" and op_place(ds[0][2]["rv"]["a"] if "a" in ds[0][2]["rv"] else ds[0][2]["rv"].get("opd", {})) is not None:
+                    negated = not negated
+                    local = op_place(ds[0][2]["rv"]["a"] if "a" in ds[0][2]["rv"] else ds[0][2]["rv"]["opd"])[0]
+                elif len(ds) == 1 and ds[0][2]["rv"]["k"] == "use" and op_place(ds[0][2]["rv"]["op"]) is not None:
+                    local = op_place(ds[0][2]["rv"]["op"])[0]
+                else:
+                    break
+            ds = [d for d in fn.defs().get(local, []) if d[1] == "assign"]
+            vt, ok = set(), bool(ds)
+            seen_t = set()
+            for asite, kind, st in ds:
+                rv = st["rv"]
+                if not (rv["k"] == "use" and rv["op"].get("k") == "const" and rv["op"].get("val") in ("true", "false")):
+                    ok = False
+                    break
+                hit = [tgt for tgt in by_target if fn.edge_dominates((sw_site.bb, tgt), asite)]
+                if len(hit) != 1:
+                    ok = False
+                    break
+                seen_t.add(hit[0])
+                if rv["op"]["val"] == "true":
+                    vt |= by_target[hit[0]]
+            if not ok or seen_t != set(by_target):
+                continue
+            allv = set().union(*by_target.values())
+            for lab in ("true", "false"):
+                e = fn.edge_of(bsite, lab)
+                if e and fn.edge_dominates(e, site):
+                    flag_val = (lab == "true") != negated
+                    out.append((dict(test, const=frozenset(vt if flag_val else allv - vt)), True))
     return out
 
 
@@ -464,7 +533,53 @@ def admitted_statuses(gates):
 
 
 def show_gates(gates):
-    return ["status %s %s is %s" % (s["op"], s["const"], str(pol).lower()) for s, pol in gates]
+    return ["status %s %s is %s" % (s["op"], sorted(s["const"]) if s["op"] == "in" else s["const"], str(pol).lower()) for s, pol in gates]
+
+
+def status_table_tests(db, fn):
+    """`TABLE.contains(&status)` tests where TABLE is a named constant array of ActorStatus values: the members are read
+    from the constant's own MIR body.  Returns dict(call, members, subject, true_edge, false_edge)."""
+    out = []
+    for c in fn.calls():
+        if not c.matches(r"slice::<impl \[T\]>::contains$"):
+            continue
+        members = None
+        for r in fn.origins(c.args[0], through=lambda cc: 0 if cc.matches("Deref|as_slice|Unsize") else None):
+            if r["k"] != "const":
+                continue
+            nm = str(fn.const_repr(r["op"]))
+            k = db.fns.get(nm)
+            if k is None or k.kind != "const":
+                continue
+            vals = []
+            for site, st in k.stmts():
+                if st["k"] == "assign" and st["rv"]["k"] == "agg" and (st["rv"].get("adt") or "") == STATUS:
+                    vals.append(st["rv"].get("variant"))
+            arrays = [st for site, st in k.stmts() if st["k"] == "assign" and st["rv"]["k"] == "agg" and st["rv"].get("kind") == "array" and st["lhs"][0] == 0]
+            if vals and len(arrays) == 1 and len(arrays[0]["rv"]["ops"]) == len(vals):
+                members = vals
+        if members is None:
+            continue
+        out.append({"call": c, "members": members, "subject": fn.origins(c.args[1]), "true_edge": true_edge(fn, c), "false_edge": false_edge(fn, c)})
+    return out
+
+
+def admitted_with_tables(db, fn, site, fresh_only=True):
+    """statuses under which `site` is reachable, combining comparison gates and constant-table membership tests.
+    returns (admitted list, description list, gates_present)"""
+    gates = status_gates_at(fn, site, fresh_only)
+    adm = set(admitted_statuses(gates))
+    desc = show_gates(gates)
+    n = len(gates)
+    for t in status_table_tests(db, fn):
+        if fresh_only and not any(r["k"] == "call" and r["call"].is_("get_status") for r in t["subject"]):
+            continue
+        for edge, pol in ((t["true_edge"], True), (t["false_edge"], False)):
+            if edge and fn.edge_dominates(edge, site):
+                n += 1
+                adm &= set(v for v in STATUS_ORDER if (v in t["members"]) == pol)
+                desc.append("status %s %s" % ("in" if pol else "not in", t["members"]))
+    return [v for v in STATUS_ORDER if v in adm], desc, n
 
 
 def set_status_calls(fn):
@@ -636,6 +751,15 @@ def dominated_in_chain(db, body, site, pred):
         if pred(par, csite):
             return True
     return False
+
+
+def status_gates_in_chain(db, body, site, fresh_only=True):
+    """status gates dominating `site` in `body` or, for nested closures/coroutines, dominating the creation site in an
+    enclosing body (lexical nesting = dominance across bodies)"""
+    out = list(status_gates_at(body, site, fresh_only))
+    for par, csite in enclosing_chain(db, body)[1:]:
+        out += status_gates_at(par, csite, fresh_only)
+    return out
 
 
 def place_ty(db, fn, p, depth=0):
